@@ -141,9 +141,9 @@ theorem step_mut {s : Sess} {i : Nat} {hd hd' : Handle} {H' : Heap} {h h' : Nat}
     (ok : SessOk s) (hi : s.hs[i]? = some hd) (hm : hd.immutable = false)
     (htree : HT s.w.heap h hd.root) (u : RUpd hd.creator s.w.heap H' h hd.root h' hd'.root tr'.root)
     (hsame : hd'.t = hd.t ∧ hd'.immutable = hd.immutable ∧ hd'.inOrder = hd.inOrder ∧ hd'.creator = hd.creator ∧
-      hd'.collapseAlways = hd.collapseAlways)
+      hd'.collapseAlways = hd.collapseAlways ∧ hd'.collapseOnError = hd.collapseOnError)
     (hwf : Wf hd.t tr'.root ∧ RootOk tr'.root ∧ hd'.size = (flat tr'.root).length)
-    (htr : tr' = ⟨hd.t, tr'.root, hd'.size, hd.immutable, hd.inOrder, hd.collapseAlways⟩) :
+    (htr : tr' = ⟨hd.t, tr'.root, hd'.size, hd.immutable, hd.inOrder, hd.collapseAlways, hd.collapseOnError⟩) :
     SessOk ⟨{ s.w with heap := H' }, s.hs.set i hd'⟩ ∧
     Sess.abs ⟨{ s.w with heap := H' }, s.hs.set i hd'⟩ = s.abs.set i tr' := by
   have hdmem : hd ∈ s.hs := List.mem_of_getElem? hi
@@ -158,7 +158,7 @@ theorem step_mut {s : Sess} {i : Nat} {hd hd' : Handle} {H' : Heap} {h h' : Nat}
   · refine ⟨?_, ?_, ?_, ?_⟩
     · intro x hx
       rcases mem_set_cases hx with rfl | ⟨j, hji, hjx⟩
-      · refine ⟨by rw [hsame.1]; exact okd.t_ok, by rw [hsame.2.2.2.2]; exact okd.ca,
+      · refine ⟨by rw [hsame.1]; exact okd.t_ok, by rw [hsame.2.2.2.2.1]; exact okd.ca,
           by rw [hsame.2.2.2.1]; exact okd.tok, h', u.ht, u.nodup, ?_, ?_, ?_⟩
         · rw [u.abs, hsame.1]; exact hwf.1
         · rw [u.abs]; exact hwf.2.1
@@ -226,7 +226,7 @@ theorem step_mut {s : Sess} {i : Nat} {hd hd' : Handle} {H' : Heap} {h h' : Nat}
     rw [map_set_congr (f := Handle.toTree s.w)]
     · congr 1
       rw [htr]
-      simp only [Handle.toTree, hnew_abs, hsame.1, hsame.2.1, hsame.2.2.1, hsame.2.2.2.2]
+      simp only [Handle.toTree, hnew_abs, hsame.1, hsame.2.1, hsame.2.2.1, hsame.2.2.2.2.1, hsame.2.2.2.2.2]
     · intro j x hji hjx
       obtain ⟨hj, t1, t2, _, _, _⟩ := (ok.trees x (List.mem_of_getElem? hjx)).tree
       obtain ⟨a1, a2, a3⟩ := hother j x hji hjx hj t1
